@@ -12,7 +12,8 @@ EXTENDS Node, Json, IOUtils, SequencesExt
 
 Runs == ndJsonDeserialize(IOEnv.CN_RUNS)
 K == [atomicAllowlist |-> IOEnv.ND_ATOMIC_ALLOWLIST = "true"]
-Abs(p) == [allow |-> ToSet(p.allow), inv |-> ToSet(p.inv), mark |-> p.mark, chans |-> ToSet(p.chans), fee |-> p.fee]
+Abs(p) == [allow |-> ToSet(p.allow), inv |-> ToSet(p.inv), mark |-> p.mark, chans |-> ToSet(p.chans), fee |-> p.fee,
+           iss |-> IF "iss" \in DOMAIN p THEN ToSet(p.iss) ELSE {}]
 
 Same(r, q) == r.ra = q.ra /\ r.rb = q.rb /\ Abs(r.post) = Abs(q.post)
 LinImpl(r) == Same(r, r.sab) \/ Same(r, r.sba)
@@ -26,7 +27,12 @@ Stuck   == {i \in Idx : Runs[i].stuck}
 NonLin  == {i \in Idx : ~Runs[i].stuck /\ ~LinImpl(Runs[i])}
 SpecDiv == {i \in Idx : ~Runs[i].stuck /\ LinImpl(Runs[i]) /\ ~LinSpec(Runs[i])}
 
+\* C11 under concurrency: once both requests have returned, a signer restored from the store equals the running
+\* one in every field of the durable view (rdiff = the fields that differ, recorded by the harness)
+NonDurable == {i \in Idx : ~Runs[i].stuck /\ "rdiff" \in DOMAIN Runs[i] /\ Len(Runs[i].rdiff) > 0}
+
 Report == [ runs |-> Len(Runs),
+            nondurable |-> SetToSeq({Runs[i] : i \in NonDurable}),
             stuck |-> SetToSeq({Runs[i] : i \in Stuck}),
             nonlinearizable |-> SetToSeq({Runs[i] : i \in NonLin}),
             spec_divergences |-> SetToSeq({Runs[i] : i \in SpecDiv}) ]
